@@ -103,6 +103,7 @@ def verify_function(world, cname, prop, timeout_ms=QUICK_TIMEOUT_MS, source_over
         for n, k in c.params.items():
             assume_classinv(ex, st, env[n], k)
         env_l = ex.with_lets(st, c, dict(env))
+        ex.let_env = {k: v for k, v in env_l.items() if k not in env}
         for r in c.requires:
             st.assume(ex.eval_spec(r, st, env_l))
         st.pre = st.snapshot()
